@@ -37,3 +37,6 @@ pub use lexer::channel::TokenChannel;
 pub use lexer::error;
 pub use lexer::token_type::TokenType;
 pub use lexer::{lex_program, LexResult};
+
+#[cfg(sas_lexer_verif)]
+pub use lexer::{lex_program_verif, verif_hooks, VerifInfo};
